@@ -1,5 +1,6 @@
 /- Case generation for C06: files for the preprocessor, expected observation computed by `Model/Preproc.lean`. -/
 import SlicecVerif.Model.Preproc
+import SlicecVerif.Model.PreprocErrors
 import SlicecVerif.Drv.Common
 
 namespace Slicec.Drv.P06
@@ -30,8 +31,17 @@ def showBlock (b : Block) : String :=
 def showBlocks (bs : List Block) : String :=
   if bs.isEmpty then "-" else ";".intercalate (bs.map showBlock)
 
-def showResult : Except Rejected (List Block × Syms) → String
-  | .error _ => "reject"
+def showLoc (l : Loc) : String := toString l.row ++ ":" ++ toString l.col
+
+/-- `<row>:<col>[-<row>:<col>]`: start and end of a diagnostic (the end is omitted when it is the start) -/
+def showSpan (sp : Loc × Loc) : String :=
+  if sp.1 = sp.2 then showLoc sp.1 else showLoc sp.1 ++ "-" ++ showLoc sp.2
+
+/-- `reject <span>;…`: every diagnostic in report order -/
+def showReject (f : List Char) : String := "reject " ++ ";".intercalate ((reportedErrors f).map showSpan)
+
+def showResult (f : List Char) : Except Rejected (List Block × Syms) → String
+  | .error _ => showReject f
   | .ok (bs, D) => "ok " ++ showBlocks bs ++ " " ++ showSyms D
 
 /-- model vs SPEC on one file: `some reason` when the stack machine over the raw lines disagrees with the model -/
@@ -45,13 +55,35 @@ def specDisagrees (f : List Char) (D : Syms) : Option String :=
     else if sortSyms D1 != sortSyms D2 then some "final symbols differ from the stack machine's"
     else none
 
+def showRows (r : ErrRows) : String :=
+  toString r.rows ++ (match r.stop with | some n => " stop " ++ toString n ++ (if r.lexical then " (lexical)" else " (end of input)") | none => "")
+
+/-- the recovery mirror vs the model's verdict and vs the error-collecting SPEC machine over the raw lines.
+    The one licensed difference (see Model/PreprocErrors.lean): when the run ends with a LEXICAL error, the mirror may
+    have lost the error of the directive line directly in front of it (its diagnostic is pushed only after the next
+    token has been fetched). -/
+def errorsDisagree (f : List Char) (D : Syms) : Option String :=
+  let rejected := match preprocess f D with | .error _ => true | .ok _ => false
+  let errs := reportedErrors f
+  if rejected != !errs.isEmpty then some "the model rejects iff-not the recovery mirror reports an error"
+  else if !mirrorChecksFile f then some "an error token of the mirror is not a token of its directive line, or not on the row where that line starts"
+  else
+    let sp := cerrFile f
+    let mi := mirrorRows f
+    if sp == mi then none
+    else if sp.lexical && mi.lexical && sp.stop == mi.stop && sp.rows.dropLast == mi.rows then none
+    else some ("rows of the reported errors: line-by-line machine " ++ showRows sp ++ ", recovery mirror " ++ showRows mi)
+
 def ppCase (o : Out) (fam : String) (text : String) (D : Syms) : IO Unit := do
   let f := text.toList
   let symField := if D.isEmpty then "-" else ",".intercalate D
   match specDisagrees f D with
   | some why => o.line (tab ["K", fam, hexOfString text, symField, why])
   | none => pure ()
-  o.line (tab ["pp", fam, hexOfString text, symField, showResult (preprocess f D)])
+  match errorsDisagree f D with
+  | some why => o.line (tab ["K", fam, hexOfString text, symField, why])
+  | none => pure ()
+  o.line (tab ["pp", fam, hexOfString text, symField, showResult f (preprocess f D)])
 
 def subsets3 : List Syms :=
   [[], ["A"], ["B"], ["C"], ["A", "B"], ["A", "C"], ["B", "C"], ["A", "B", "C"]]
@@ -165,7 +197,9 @@ def manualFiles : List String :=
    "#if A\n#elif B\n#define C\n#else\n#define A\n#endif\n#if C\nc\n#endif\n#if A\na\n#endif", "#if A\n#define B\nx\n#elif B\ny\n#endif",
    "#if A\n#if B\n#if C\nabc\n#else\nab\n#endif\n#elif C\nac\n#else\na\n#endif\n#elif B\nb\n#else\nnone\n#endif",
    "#if A\n#foo\n#endif", "#if A\n#if\n#endif\n#endif", "#if A\nx\n#else y\nz\n#endif", "#endif A", "#if A\n#endif A", "#define A // c\n#if A // d\nx\n#endif",
-   "#define A /\n", "#define A\n#define A\n#undef A\n#if A\nx\n#endif", "#undef Q\nx", "x#\ny", "x\n#", "x\n# ", "x\n  #\n", "#if A\nx"]
+   "#define A /\n", "#define A\n#define A\n#undef A\n#if A\nx\n#endif", "#undef Q\nx", "x#\ny", "x\n#", "x\n# ", "x\n  #\n", "#if A\nx",
+   "#if Bar\n#elif (Foo   // déjà vu: see the « naïve » façade\nmodule M\n#endif\n", "#define Foo Bar\nmodule M\n#if Baz\nstruct A {}\n#endif\n#endif\nstruct B {}\n",
+   "#if A\nmodule é", "#if\n#foo", "#if\nx\n#foo", "#if A B $\n", "#if A\n\n\n", "#if A\n#else\n#else\n#endif", "#if A\nx\n#elif\ny\n#else\n#endif"]
 
 /-! ## family 5: random files -/
 
@@ -209,7 +243,7 @@ def spellToks (ts : List PTok) (r : Rng) : String × Rng :=
 def srcTexts : List String :=
   ["struct S {}", "x", "module M", "// c", "/* c */", "/*", "*/", "\"", "}", "field: string,", "x # y", "é\u3000ü", "a\tb", "[cs::attr] #", "// #if A"]
 
-def trailers : List String := ["", "", "", " ", " // c", "// #else", "\t//", " // é", "  "]
+def trailers : List String := ["", "", "", " ", " // c", "// #else", "\t//", " // é", "  ", " // «naïve» façade", "\u3000"]
 
 structure GenCfg where
   crlf : Nat  -- 0 = LF, 1 = CRLF, 2 = mixed
@@ -399,7 +433,7 @@ def multiCase (o : Out) (fam : String) (files : List String) (D : Syms) (probe :
   let res := preprocessFiles D (files.map String.toList)
   let symField := if D.isEmpty then "-" else ",".intercalate D
   o.line (tab ["multi", fam, "|".intercalate (files.map hexOfString), symField,
-               "|".intercalate (res.map (if probe then showProbes else showResult))])
+               "|".intercalate ((files.zip res).map fun (t, r) => if probe then showProbes r else showResult t.toList r)])
 
 def genProbeFile (tag : String) (r : Rng) : String × Rng :=
   let (n, r) := r.below 5
@@ -407,6 +441,51 @@ def genProbeFile (tag : String) (r : Rng) : String × Rng :=
   let (m, r) := r.below 15
   let ls := if m == 0 then ls ++ ["#endif"] else if m == 1 then "#if A" :: ls else ls
   ("\n".intercalate ("module M" :: ls) ++ "\n", r)
+
+/-! ## family 7: which directives are reported, and where -/
+
+/-- malformed directive lines the parser recovers from (one error at the first unacceptable token) and closers that are
+    only wrong where they stand -/
+def badLines : List String :=
+  ["#if", "#if A B", "#if (A", "#if A)", "#if ()", "#if !!A", "#if A && !B", "#if A ||", "#if && A", "#if (A) (B)", "#if A #endif",
+   "#if ((A)", "#if (A && (B || C)", "#if !(A", "#if A && (", "#if A && B C", "#if !", "#if #if A",
+   "#elif", "#elif A B", "#elif (A", "#elif !", "#elif A)", "#else X", "#else (", "#else #endif", "#endif X", "#endif !", "#endif #endif",
+   "#define", "#define A B", "#define (", "#define A #define B", "#undef", "#undef A B", "#undef !A",
+   "#endif", "#else", "#elif A", "#elif (A || B) && C"]
+
+/-- directive lines with a LEXICAL error (the parse stops there) -/
+def lexBadLines : List String :=
+  ["#foo", "#", "#if A & B", "#if A | B", "#if A / B", "#if $", "#if A $", "#if é", "#define 1", "#if A B $", "# 1", "#elif A &",
+   "#endif $", "#else /", "#if (A $", "#define A B $", "#IF A"]
+
+/-- what may follow a directive on its line -/
+def errTrailers : List String :=
+  ["", " // é", " // déjà vu: see the « naïve » façade", "\u3000", "\t", " \t// x", "\r", "//«»", " // 😀 x"]
+
+def errIndents : List String := ["", "  ", "\t", "\u3000", "\u00A0 "]
+
+/-- contexts: the lines in front of and behind the line under test -/
+def errContexts : List (List String × List String) :=
+  [([], []), (["x"], ["y"]), (["#if A", "x"], ["y", "#endif"]), (["#if A", "#elif B", "x"], ["#endif"]),
+   (["#if A", "#else", "x"], ["y", "#endif"]), (["#if A", "#if B"], ["#endif", "#else", "#endif"]), (["#if A"], ["#endif"]),
+   (["#if A"], ["#else", "#endif"]), (["#if A", "#else"], ["#endif"]), (["#if A", "#elif B"], ["#else", "#endif"]),
+   (["#define", "x"], ["y"]), (["#define"], []), ([], ["x", "#endif X"]), ([], ["#undef"]), (["#if A"], ["#endif", "#endif"]),
+   (["#if A"], []), (["#if A", "#if B", "x"], ["y é"]), (["#if A", "#else"], ["#endif", "#else", "#elif B", "#endif"]),
+   (["#if (", "x"], ["#elif B", "#else", "#endif"]), (["#if A", "#elif", "x"], ["#else", "y", "#else", "#endif"]),
+   ([], ["#foo"]), ([], ["x", "#foo"]), (["#if A $"], []), ([], ["", "  ", "#if A &"]), (["#if A"], ["", "\u3000", ""]),
+   (["#if A"], ["module é", "  "]), (["#if A", "#if B", "#if C"], []), (["#if A", "#if B", "#else", "#if C"], ["x"])]
+
+def joinWith (ls : List String) (crlf : Bool) (finalNl : Bool) : String :=
+  let nl := if crlf then "\r\n" else "\n"
+  nl.intercalate ls ++ (if finalNl && !ls.isEmpty then nl else "")
+
+/-- the smaller catalogue for the "several errors in one file, in every order" family -/
+def multiBad : List String :=
+  ["#if", "#if (A // é", "#elif A", "#else X", "#endif", "#define A B", "#undef", "#if A && !B // «naïve»", "#foo", "#if A $"]
+
+def seqOver {α} (xs : List α) : Nat → List (List α)
+  | 0 => [[]]
+  | n + 1 => xs.flatMap fun x => (seqOver xs n).map (x :: ·)
 
 end Slicec.Drv.P06
 
@@ -449,6 +528,46 @@ def genC06 (tier : Tier) (seed : Nat) (o : Out) : IO Unit := do
         let t := wrapDirective k line
         ppCase o ("dir" ++ toString (n + 1)) t ["A"]
         if n ≤ 2 then ppCase o ("dir" ++ toString (n + 1)) t ["B", "Z"]
+  -- 6. which directives are reported and where: every malformed line × context × trailer × indentation × line ends
+  let mut k := 0
+  for l in badLines ++ lexBadLines do
+    for (pre, post) in errContexts do
+      for tr in errTrailers do
+        k := k + 1
+        let ind := errIndents.getD (k % errIndents.length) ""
+        -- a `//` trailer directly after a lexically bad line changes nothing; after `#if A /` it would make a comment: keep the blank
+        let line := ind ++ l ++ tr
+        let ls := pre ++ [line] ++ post
+        ppCase o "err-ctx" (joinWith ls false true) []
+        ppCase o "err-ctx" (joinWith ls false false) []
+        if k % 2 == 0 || thorough then ppCase o "err-ctx-crlf" (joinWith ls true (k % 4 == 0)) []
+        if thorough then
+          -- the trailer on EVERY directive line of the context
+          let ls2 := (pre.map fun x => if x.startsWith "#" then x ++ tr else x) ++ [line] ++ (post.map fun x => if x.startsWith "#" then ind ++ x ++ tr else x)
+          ppCase o "err-ctx-all" (joinWith ls2 false (k % 2 == 0)) []
+  -- two and three errors in one file in every order: adjacent, separated by a source line, inside / after an open conditional
+  for n in [2, 3] do
+    for ls in seqOver multiBad n do
+      for v in List.range 5 do
+        let body : List String :=
+          match v with
+          | 0 => ls
+          | 1 => ls.flatMap fun l => [l, "s é"]
+          | 2 => ["#if A"] ++ ls ++ ["#endif"]
+          | 3 => ["#if A", "x"] ++ (ls.flatMap fun l => ["", l]) ++ ["  "]
+          | _ => ["#if A", "#else"] ++ ls ++ ["y", "#endif", "#endif"]
+        if n == 2 || v < 3 || thorough then
+          ppCase o ("err-multi" ++ toString n) (joinWith body false (v % 2 == 0)) []
+  -- unterminated conditionals (1-3 open) with and without earlier errors, every kind of last line
+  for opens in [["#if A"], ["#if A", "#if B"], ["#if A", "#elif B", "#if C", "#else", "#if !A"], ["#if A", "x", "#else"]] do
+    for early in [[], ["#define"], ["#if (", "x"], ["#endif X"], ["#else"]] do
+      for mid in [[], ["x"], ["#define", "x"], ["#elif ("], ["#endif", "#if B"]] do
+        for last in [[], [""], ["", "", ""], ["x"], ["module é"], ["  x é \u3000"], ["x", "", "\t"], ["#define Q // é"], ["#undef // «»"], ["#if B // é", "\u3000"],
+                     ["#else X // é"], ["#foo"], ["#if $"]] do
+          let ls := early ++ opens ++ mid ++ last
+          ppCase o "err-eof" (joinWith ls false false) []
+          ppCase o "err-eof" (joinWith ls false true) []
+          if thorough then ppCase o "err-eof-crlf" (joinWith ls true true) []
   -- 4. random files
   let nRand := if thorough then 30000 else 3000
   let mut r := Rng.mk' (seed + 606)
